@@ -107,13 +107,17 @@ def fbits(x):
 
 
 class Snap:
-    def __init__(self, H):
-        self.H = H
+    def __init__(self, H, values_only=False):
+        # values_only: for RESULTS compared across processes / histories (dtype, shape, values; not the memory layout,
+        # which legitimately depends on pandas' copy-on-write history)
+        self.H, self.values_only = H, values_only
 
     def arr(self, x):
         np = self.H.np
         if x.dtype == object:
             return ("ndobj", x.shape, [self.snap(v) for v in x.ravel().tolist()])
+        if self.values_only:
+            return ("nd", x.dtype.str, tuple(x.shape), None, x.tobytes(), None)
         base = x.base if isinstance(x.base, np.ndarray) and x.base.dtype != object else None
         return ("nd", x.dtype.str, tuple(x.shape), tuple(x.strides), x.tobytes(),
                 None if base is None else base.tobytes())
@@ -1740,7 +1744,7 @@ class Pristine:
                 res = ent.fn(**kw, **optvals)
             except Exception as e:       # noqa
                 return ("err", type(e).__name__)
-        return ("ok", Snap(H).snap(res))
+        return ("ok", Snap(H, values_only=True).snap(res))
 
     def ask(self, entry_index, spec, edits, numpy_seed):
         import pickle
@@ -1914,7 +1918,7 @@ def histories(ctx, H, entries, pristine):
     import copy
     np = H.np
     rng = ctx.rng
-    sn = Snap(H)
+    sn = Snap(H, values_only=True)
     stats = {"histories": 0, "steps": 0, "pristine_answers": 0, "result_edits": 0, "argument_edits": 0, "deepcopies": 0}
 
     def call(ent, kw, optvals, seed):
